@@ -1,0 +1,19 @@
+//go:build verif
+
+package blockchain
+
+import (
+	"github.com/kardiachain/go-kardia/kai/state"
+	stypes "github.com/kardiachain/go-kardia/mainchain/staking/types"
+	"github.com/kardiachain/go-kardia/types"
+)
+
+// Verification hook for the out-of-tree harness (/verif, property C09).  Add-only: an exported
+// name for the unexported block commit loop; nothing here is compiled without the `verif` tag.
+
+// VerifCommitBlock runs commitBlock (mint, finalize, double-sign, the transaction loop with
+// snapshot / revert-and-skip, validator set read-back) on the given state.
+func (bo *BlockOperations) VerifCommitBlock(st *state.StateDB, txs types.Transactions, header *types.Header,
+	lastCommit stypes.LastCommitInfo, byzVals []stypes.Evidence) ([]*types.Validator, *types.BlockInfo, error) {
+	return bo.commitBlock(st, txs, header, lastCommit, byzVals)
+}
